@@ -858,7 +858,7 @@ func init() {
 	})
 	// a watched key expires between WATCH and EXEC and nothing else happens to its database in the meantime
 	// (reads only): EXEC must answer null. The whole sequence is issued verbatim.
-	add("tx", 1, func(g *G) []string {
+	add("tx expiry", 1, func(g *G) []string {
 		k, c, o := g.Key(), 1+g.R.Intn(g.Conns), 1+g.R.Intn(g.Conns)
 		ms := 8 + g.R.Intn(20)
 		// (the deadline is set when the first step is issued, a few steps from now: a generous band)
